@@ -563,7 +563,7 @@ def run(tier):
     rep.extra["binding_demo"] = ("goal %s: swapped outcomes -> %s, altered solution -> %s, second outcome for one limit -> %s, "
                                  "unmodified -> accepted" % (demo["id"], drej[1], drej[2], drej[3]))
     os.remove(dpath)
-    if not rep.violations and not rep.known_hits:
+    if not rep.violations:
         os.remove(path)
 
     shown = [g for g in order if g.kind == "plain" and g.srckind == "cat" and g.n == 3][:2] + \
